@@ -55,6 +55,8 @@ CAND = [
     ('res/noext', 'f', 'res'),
     ('res/a.tar.gz', 'f', 'res'),
     ('res/z.txt', 'f', 'res'),
+    ('res/S.PNG', 'f', 'res'),                  # upper-case extension ...
+    ('res/t.png', 'f', 'res'),                  # ... and a lower-case twin in the same directory
     ('res/sub', 'd', 'res'),
     ('res/sub/a.txt', 'f', 'res/sub'),
     ('res/sub/a.png', 'f', 'res/sub'),
@@ -475,6 +477,16 @@ def h_populate(sp, bits=(), present=('res',), rule_dirs=('res',), exts=((), ('.t
             if any(r['dir'] == MISSING or (r['dir'] in KIND and r['dir'] not in tree) for r in rules):
                 sp.cover('missing-skipped')
             for i, r in enumerate(rules):
+                if r['dir'] in tree and KIND[r['dir']] == 'd' and r['exts']:
+                    under = [n for n in tree if KIND[n] == 'f' and n.startswith(r['dir'] + '/')]
+                    upper_only = '.PNG' in r['exts'] and '.png' not in r['exts']
+                    lower_only = '.png' in r['exts'] and '.PNG' not in r['exts']
+                    if upper_only and any(split_ext(n)[1] == '.PNG' for n in under):
+                        sp.cover('upper-case-filter-accepts')
+                    if upper_only and any(split_ext(n)[1] == '.png' for n in under):
+                        sp.cover('upper-case-filter-rejects-lower')
+                    if lower_only and any(split_ext(n)[1] == '.PNG' for n in under):
+                        sp.cover('lower-case-filter-rejects-upper')
                 if r['dir'] == THROUGH:
                     sp.cover('missing-below-a-file-skipped')
                     if any(ri > i for ri, _ in inst):
@@ -556,6 +568,9 @@ FACTORY_TAGS = (['built-by:' + k for k in FACTORY_KINDS] + ['not-a-directory:fac
 DEFAULT_TAGS = ['ctor-default-nest', 'ctor-default-nest-clash', 'ctor-default-trim']
 PASSING_TAGS = DEFAULT_TAGS + ['clash-nest', 'clash-replace', 'trim', 'option-falls-back', 'root-per-call',
                                'rule-object-appended']
+CASE_EXTS = ((), ('.PNG',), ('.png',), ('.PNG', '.txt'), ('.png', '.PNG'))
+CASE_TAGS = ['upper-case-filter-accepts', 'upper-case-filter-rejects-lower', 'lower-case-filter-rejects-upper',
+             'trim', 'file-under-two-rules', 'clash-nest', 'clash-replace']
 THROUGH_TAGS = ['missing-below-a-file-skipped', 'missing-below-a-file-then-rule-applied', 'not-a-directory',
                 'clash-nest', 'clash-replace', 'file-under-two-rules']
 FALSY_TAGS = ['falsy-handle-clash-nest', 'falsy-handle-clash-replace', 'falsy-handle:len-0',
@@ -582,6 +597,9 @@ TIERS = {
         # (two files on one key, two rules on one file) and across two populations
         ('twice', dict(bits=('res/noext',), present=('res', 'res/a.txt', 'res/a.png'), exts=((),),
                        n_rules=(1, 2), second='call', flavours=3), dict(required=FALSY_TAGS)),
+        # extension filters are case sensitive: S.PNG next to t.png, filters with .PNG / .png
+        ('names', dict(bits=('res/S.PNG', 'res/t.png'), present=('res', 'res/a.txt'), exts=CASE_EXTS,
+                       n_rules=(1, 2)), dict(required=CASE_TAGS)),
         # names: several dots, a directory with an extension, a rule on a nested directory
         ('names', dict(bits=('res/a.tar.gz', 'res/d.txt', 'res/d.txt/e.txt', 'res/a.png', 'res/sub/a.txt'),
                        present=('res', 'res/a.txt', 'res/sub'), rule_dirs=('res', 'res/sub'))),
@@ -610,6 +628,9 @@ TIERS = {
         ('twice', dict(bits=('res/a.png', 'res/noext', 'res/sub/a.txt'), present=('res', 'res/a.txt', 'res/sub'),
                        n_rules=(1, 2), second='call', mids=('res/z.txt',), flavours=3, factories=2),
          dict(required=FALSY_TAGS)),
+        ('names', dict(bits=('res/S.PNG', 'res/t.png', 'res/a.png', 'res/sub/a.txt'),
+                       present=('res', 'res/a.txt', 'res/sub'), exts=CASE_EXTS, n_rules=(1, 2)),
+         dict(required=CASE_TAGS)),
         ('names', dict(bits=('res/a.txt', 'res/a.png', 'res/a.tar.gz', 'res/noext', 'res/d.txt',
                              'res/d.txt/e.txt', 'res/sub', 'res/sub/a.txt', 'res/sub/a.png'),
                        present=('res',), rule_dirs=('res', 'res/sub'), n_rules=(1, 2))),
@@ -657,7 +678,8 @@ BOUNDS = {
              'or explicit None), root at construction or per call, 4 extra-argument shapes, add_rule or rule object; '
              'factories: all lists of 1-2 rules x 2 filters x nest x trim x 4 factory kinds (function, class, '
              'functools.partial, object with __call__) on one tree; '
-             'through-file: rules over {plainfile/extra, res, plainfile} (1-2 rules) on 4 trees; falsy handles: '
+             'case: res/S.PNG and res/t.png x 1-2 rules on res with filters from {(), {.PNG}, {.png}, {.PNG,.txt}, '
+             '{.png,.PNG}}; through-file: rules over {plainfile/extra, res, plainfile} (1-2 rules) on 4 trees; falsy handles: '
              'ordinary / __len__==0 / __bool__ False handles x 1-2 rules on res x two populations; '
              'twice: 8 trees, second population with fresh options, optionally after adding res/z.txt; same populator: '
              'options at construction x explicit override in call 1 x every per-call form (omitted/None/True/False) '
@@ -666,7 +688,8 @@ BOUNDS = {
                 'res/sub/a.txt, res/sub/deep/, res/sub/deep/b.txt, res2/, res2/c.txt, other/, other/x) x every '
                 'single rule over {res,res2,missing,regular file,res/sub} x 2 filters x nest x trim; rules: 171 '
                 'trees x every ordered pair of such rules x nest x trim; factories: 8 trees x all lists of 1-2 rules over 4 directories x 2 filters x nest x trim x 4 factory '
-                'kinds; through-file: the quick rules plan with plainfile/extra as a sixth rule directory; falsy handles: 8 '
+                'kinds; case: 16 trees with S.PNG, t.png, a.png, sub/a.txt x the same five filters x 1-2 rules; '
+                'through-file: the quick rules plan with plainfile/extra as a sixth rule directory; falsy handles: 8 '
                 'trees x 3 handle flavours x 2 factory kinds x 1-2 rules x two populations; names: 240 trees with a.tar.gz, d.txt/'
                 'e.txt, sub/a.png x 1-2 rules over {res,res/sub}; passing as quick plus a second call with every '
                 'per-call option form (None/True/False each, None omitted or explicit); twice: 57 trees x 1-2 rules over {res,res/sub} x options x '
@@ -695,6 +718,8 @@ ASSUMPTIONS = [
     '(plainfile/extra) is a MISSING path (nothing exists there): skipped, later rules still applied',
     'handles are arbitrary objects of the factory: their truth value must not matter (falsy handles with '
     '__len__ == 0 or __bool__ False are tried)',
+    'extension filters compare the extension exactly as spelled (case sensitive): {.PNG} accepts S.PNG and not '
+    't.png, {.png} the reverse; the scratch file system (tmpfs/ext4) is case sensitive',
     'handle.parent / handle.key back-links are C11, not checked here',
     'an option omitted at construction has the documented default (nest_on_conflict enabled, trim_extensions '
     'False); constructing with none, one or both options is explored',
